@@ -21,7 +21,9 @@
      assigned on failure), so a later reconnect() can still turn it into MQTT_ERR_CONN_LOST;
    * a lost connection leaves the queue alone; ack() appends its reply even without a socket.
    Mode modelled: no network thread, no on_socket_register_write callback, API calls are not made
-   from inside callbacks.  A blocked transport accepts nothing (no partial writes: that is C06's).
+   from inside callbacks (in particular not from on_pre_connect / on_socket_open, so the gate
+   [_connect_queued] - nothing is written on a new socket before its CONNECT is queued - is never
+   closed when loop_write() runs: reconnect() queues CONNECT before it returns).  A blocked transport accepts nothing (no partial writes: that is C06's).
    Model only: no proofs in this file.  Ghost data: [o_tag] (publish() order, carried in the
    payload by the harness), [conn] (connection counter), [ntag]. *)
 From PahoV Require Import Base.Prelude Codec.Mid.
